@@ -33,6 +33,9 @@ pub fn scenarios(tier: &str) -> Vec<Scenario> {
     deep.extend(block(vec![s_set(0, 0, 1)]));
     let restart_alpha = vec![
         m_block("B(set0=1)", vec![s_set(0, 0, 1)]),
+        // an inscription id deployed on one branch and, after a reorg, at another address on the next one
+        m_deploy_x_first(),
+        m_deploy_x_second(),
         m_mine(1),
         m_mine(W - 1),
         m_commit(0),
